@@ -272,13 +272,18 @@ impl ARunner {
                     _ => Some("abp-failed".into()),
                 }
             }
-            ["sess", da, up, down] => {
+            ["sess", da, up, down, rest @ ..] if rest.is_empty() || rest.len() == 2 => {
                 // a device constructed around a stored session (`new_with_session`)
                 let da: u32 = da.parse().ok()?;
                 let base = lorawan_device::mac::Session::new(NwkSKey::from(NWK_KEY), AppSKey::from(APP_KEY), DevAddr::from_value(da));
                 let mut j = serde_json::to_value(&base).unwrap();
                 j["fcnt_up"] = serde_json::json!(up.parse::<u32>().ok()?);
                 j["fcnt_down"] = if *down == "-" { serde_json::json!(null) } else { serde_json::json!(down.parse::<u32>().ok()?) };
+                if rest.len() == 2 {
+                    // the stored `confirmed` flag and ADR counter of a session saved after a confirmed uplink
+                    j["confirmed"] = serde_json::json!(rest[0] == "1");
+                    j["adr_ack_cnt"] = serde_json::json!(rest[1].parse::<u32>().ok()?);
+                }
                 let sess: lorawan_device::mac::Session = serde_json::from_value(j).ok()?;
                 let (reg, seed, forced, cc) = self.hdr.clone();
                 let mut dev: Dev = Device::new_with_session(
